@@ -81,6 +81,33 @@ def _pool_value(rng):
     return rng.randint(-48, 48) / 8.0
 
 
+def _gen_priors(rng, n) -> list:
+    priors = []
+    if rng.random() < 0.7:
+        rho = rng.choice([0.0, 0.5, 1.0, "vec"])
+        if rho == "vec":
+            rho = [rng.choice([0.0, 0.25, 0.5, 1.0]) for _ in range(n)]
+        pr = {"kind": "minnesota", "rho": rho, "kappa": rng.choice([0, 1, 2])}
+        if rng.random() < 0.5:
+            pr["mu"] = rng.choice([0.5, 1.0, 2.0, 1.5])
+        else:
+            pr["mu2"] = rng.choice([0.25, 1.0, 4.0, 9.0])
+        priors.append(pr)
+    if rng.random() < 0.5 or not priors:
+        mean = rng.choice([0.0, 1.0, "vec"])
+        if mean == "vec":
+            mean = [rng.randint(-8, 8) / 4.0 for _ in range(n)]
+        pr = {"kind": "mean", "mean": mean}
+        if rng.random() < 0.5:
+            pr["mu"] = rng.choice([0.5, 1.0, 2.0])
+        else:
+            pr["mu2"] = rng.choice([0.25, 1.0, 4.0])
+        priors.append(pr)
+    if len(priors) == 2 and rng.random() < 0.3:
+        priors.reverse()
+    return priors
+
+
 def gen_spec(rng, nodata=False) -> dict:
     n = rng.choice([1, 2, 2, 3])
     m = rng.choice([0, 0, 1, 2])
@@ -124,37 +151,26 @@ def gen_spec(rng, nodata=False) -> dict:
         for t in range(p + N):
             if rng.random() < 0.5:
                 data[nm][t] = [None] * len(data[nm][t])
-    priors = []
-    q = rng.random()
-    if q < 0.45 and not nodata:
-        if rng.random() < 0.7:
-            rho = rng.choice([0.0, 0.5, 1.0, "vec"])
-            if rho == "vec":
-                rho = [rng.choice([0.0, 0.25, 0.5, 1.0]) for _ in range(n)]
-            pr = {"kind": "minnesota", "rho": rho, "kappa": rng.choice([0, 1, 2])}
-            if rng.random() < 0.5:
-                pr["mu"] = rng.choice([0.5, 1.0, 2.0, 1.5])
-            else:
-                pr["mu2"] = rng.choice([0.25, 1.0, 4.0, 9.0])
-            priors.append(pr)
-        if rng.random() < 0.5 or not priors:
-            mean = rng.choice([0.0, 1.0, "vec"])
-            if mean == "vec":
-                mean = [rng.randint(-8, 8) / 4.0 for _ in range(n)]
-            pr = {"kind": "mean", "mean": mean}
-            if rng.random() < 0.5:
-                pr["mu"] = rng.choice([0.5, 1.0, 2.0])
-            else:
-                pr["mu2"] = rng.choice([0.25, 1.0, 4.0])
-            priors.append(pr)
-        if len(priors) == 2 and rng.random() < 0.3:
-            priors.reverse()
-    return {
+    priors = _gen_priors(rng, n) if (rng.random() < 0.45 and not nodata) else []
+    spec = {
         "n": n, "m": m, "p": p, "intercept": intercept, "dof": rng.random() < 0.5,
         "omit_missing": rng.random() < 0.93 or nodata, "nv": nv, "freq": freq, "start": start, "N": N,
         "data": data, "priors": priors, "interpret_span": rng.choice(["short", "short", "long"]),
         "nv_in_ctor": rng.random() < 0.5,
     }
+    # re-estimation into a working databox: earlier estimations (other order / intercept / prior / sample) have already
+    # left res_* series in the target databox handed to the estimation under test
+    if not nodata and rng.random() < 0.4:
+        pre = []
+        for _ in range(rng.choice([1, 1, 2])):
+            pp = rng.choice([q_ for q_ in (1, 2, 3) if q_ != p] + [p])
+            a = max(0, pp - p) + rng.choice([0, 0, 1, 3])
+            pre.append({"p": pp, "intercept": rng.random() < 0.6, "dof": rng.random() < 0.5, "a": a,
+                        "b": rng.choice([0, 0, 1, 2]), "priors": _gen_priors(rng, n) if rng.random() < 0.4 else []})
+        spec["pre"] = pre
+    elif not nodata and rng.random() < 0.15:
+        spec["target_db"] = True          # a target databox without earlier residuals
+    return spec
 
 
 def _f(x):
@@ -209,10 +225,44 @@ def estimate_kwargs(spec):
     return kw
 
 
+def uses_target(spec) -> bool:
+    return bool(spec.get("pre") or spec.get("target_db"))
+
+
+def prepare_target(spec, db, ynames, xnames):
+    """The working databox handed to the estimation under test as target_db: a copy of the data into which the
+    earlier estimations spec["pre"] (other order / intercept / prior / sample) have written their res_* series."""
+    import irispie as ir
+    if not uses_target(spec):
+        return None
+    work = db.copy()
+    s0 = sc.mk_period(spec["freq"], spec["start"])
+    for st in spec.get("pre", []):
+        try:
+            mdl = ir.RedVAR(ynames, xnames, order=st["p"], intercept=st["intercept"], num_variants=spec["nv"])
+            sp = ir.Span(s0 + st["a"], s0 + spec["N"] - 1 - st["b"])
+            with np.errstate(all="ignore"):
+                work = mdl.estimate(db, sp, target_db=work, omit_missing=True, dof_correction=st["dof"],
+                                    prior_obs=mk_priors(st))
+        except Exception:  # noqa  (too few observations for the earlier specification: the target keeps what it has)
+            pass
+    return work
+
+
+def estimate(spec):
+    """The whole call sequence of a spec through the public API: (db, span, model, estimate output)."""
+    db, span, model, ynames, xnames = build(spec)
+    kw = estimate_kwargs(spec)
+    target = prepare_target(spec, db, ynames, xnames)
+    if target is not None:
+        kw["target_db"] = target
+    return db, span, model, model.estimate(db, span, **kw)
+
+
 def repro_text(spec) -> str:
     return ("import json; from harness import C18; spec = json.load(open(REPLAY))['failure']['input']['spec']; "
-            "db, span, model, *_ = C18.build(spec); out = model.estimate(db, span, **C18.estimate_kwargs(spec)); "
-            "sim = model.simulate(out, span)")
+            "db, span, model, out = C18.estimate(spec); sim = model.simulate(out, span)   "
+            "# spec['pre'] = earlier estimations written into the target databox first")
 
 
 # ====================================================================== implementation run with recorders
@@ -259,10 +309,17 @@ def run_impl(spec) -> dict:
     except Exception as e:  # noqa
         return {"error": _exc("build", e)}
     acc = acc_error = sim = sim_error = None
+    kw = estimate_kwargs(spec)
+    try:
+        target = prepare_target(spec, db, ynames, xnames)
+    except Exception as e:  # noqa
+        return {"error": _exc("target", e)}
+    if target is not None:
+        kw["target_db"] = target
     with recorders(events):
         try:
             with np.errstate(all="ignore"):
-                out = model.estimate(db, span, **estimate_kwargs(spec))
+                out = model.estimate(db, span, **kw)
         except Exception as e:  # noqa
             return {"error": _exc("estimate", e)}
         n_est = len(events)
@@ -537,8 +594,12 @@ def property_checks(spec, res, first_only=False) -> list[Failure]:
     fails: list[Failure] = []
     shape = f"n={n},m={m},order={p},intercept={spec['intercept']},dof={spec['dof']},priors={len(spec['priors'])}"
 
+    tag = ":target_db" if uses_target(spec) else ""
+    if spec.get("pre"):
+        shape += f",target_db after {len(spec['pre'])} earlier estimation(s) of order " + "/".join(str(st["p"]) for st in spec["pre"])
+
     def fail(key, what, observed=None, required=None, v=0):
-        fails.append(Failure(key, f"{what} [{shape}, variant {v}]", {"spec": spec, "variant": v}, observed, required,
+        fails.append(Failure(key + tag, f"{what} [{shape}, variant {v}]", {"spec": spec, "variant": v}, observed, required,
                              repro_text(spec)))
 
     if "error" in res:
@@ -680,6 +741,10 @@ def correspondence(ctx) -> CorrResult:
             dist[key][str(val)] = dist[key].get(str(val), 0) + 1
         if not spec["omit_missing"]:
             dist["omit_missing_false"] += 1
+        if spec.get("pre"):
+            dist["target_db_with_earlier_residuals"] = dist.get("target_db_with_earlier_residuals", 0) + 1
+        elif spec.get("target_db"):
+            dist["target_db_plain"] = dist.get("target_db_plain", 0) + 1
         if "error" in out:
             e = out["error"]
             if e["exc"] == "ValueError" and "No data available" in e["msg"]:
@@ -714,7 +779,9 @@ def correspondence(ctx) -> CorrResult:
     res.distribution = dist
     res.rule = ("one generated data set (1-3 endogenous, 0-2 exogenous variables, 6 frequencies, dyadic values, missing / "
                 "infinite observations, late starts, 1-2 variants) and one option set (order 1-3, intercept, dof_correction, "
-                "omit_missing, Minnesota / mean prior observations, interpret_span); evaluation = one variant driven through "
+                "omit_missing, Minnesota / mean prior observations, interpret_span; in 40% of the sets the estimation writes into a "
+                "target databox that already holds the residuals of 1-2 earlier estimations with another order / intercept / "
+                "prior / sample); evaluation = one variant driven through "
                 "RedVAR(...).estimate, get_system_matrices/get_mean/get_eigenvalues/get_acov/get_companion_matrices, "
                 "simulate; 15 compared components each; non-trivial = the estimate succeeded; distinct = distinct spec text")
     res.samples = [{"spec": {k_: v_ for k_, v_ in s.items() if k_ != "data"}, "variant": v,
